@@ -118,6 +118,20 @@ def gen(rng, p_keep=0.5, cheap=True):
         d["ticket_count"] = rng.choice([0, 1, 2, 3])
     if rng.random() > 0.9:
         d["usePaddingExtension"] = False
+    if rng.random() > 0.85:
+        # back ends in any order, with repetitions (python always among them)
+        impl = [rng.choice(["openssl", "pycrypto", "python"])
+                for _ in range(rng.randint(1, 4))]
+        impl.insert(rng.randrange(len(impl) + 1), "python")
+        d["cipherImplementations"] = impl
+    if rng.random() > 0.85:
+        # a repeated element in one list-valued setting
+        ks = [k for k, v in d.items() if isinstance(v, list) and v and
+              k != "versions"]
+        if ks:
+            k = rng.choice(sorted(ks))
+            d[k] = list(d[k])
+            d[k].insert(rng.randrange(len(d[k]) + 1), rng.choice(d[k]))
     return d
 
 
